@@ -323,7 +323,19 @@ fn op_line(bs: Vec<u8>) -> String {
     match s.parse::<Line>() {
         Err(line::Error::InvalidHeaderRecord { .. }) => "err header".into(),
         Err(line::Error::InvalidAlignmentDataRecord { .. }) => "err data".into(),
-        Ok(l) => format!("ok {} print={}", line_str(&l), hex(l.to_string().as_bytes())),
+        Ok(l) => {
+            // read-only queries first (they must not affect equality), then print, re-parse, compare with `==`
+            if let Line::Header(h) = &l {
+                let _ = h.reference_sequence().interval();
+                let _ = h.query_sequence().interval();
+            }
+            let printed = l.to_string();
+            let eq = match printed.parse::<Line>() {
+                Ok(l2) => l2 == l && s.parse::<Line>().map(|l3| l3 == l).unwrap_or(false),
+                Err(_) => false,
+            };
+            format!("ok {} print={} eq={}", line_str(&l), hex(printed.as_bytes()), eq)
+        }
     }
 }
 
@@ -545,10 +557,15 @@ fn op_step(hdr: Vec<u8>, recs: Vec<Vec<u8>>, cap: usize) -> String {
 fn op_reser(src: Vec<Ev>) -> String {
     let mut reader = Reader::new(Script::new(src));
     let mut out = String::new();
+    let mut originals = Vec::new();
     for r in reader.sections() {
         match r {
             Err(_) => return "err".into(),
             Ok(s) => {
+                // a read-only walk over the section must not change what it is equal to
+                if let Ok(st) = s.stepthrough() {
+                    for _ in st.take(s.data().len() + 2) {}
+                }
                 out.push_str(&s.header().to_string());
                 out.push('\n');
                 for d in s.data().iter() {
@@ -556,10 +573,15 @@ fn op_reser(src: Vec<Ev>) -> String {
                     out.push('\n');
                 }
                 out.push('\n');
+                originals.push(s);
             }
         }
     }
-    format!("ok {}", hex(out.as_bytes()))
+    let mut again = Reader::new(out.as_bytes());
+    let reparsed: Vec<_> = again.sections().collect();
+    let eq = reparsed.len() == originals.len()
+        && reparsed.iter().zip(originals.iter()).all(|(a, b)| matches!(a, Ok(a) if a == b));
+    format!("ok {} eq={}", hex(out.as_bytes()), eq)
 }
 
 fn dict_str(d: &machine::ChromosomeDictionary) -> String {
